@@ -12,7 +12,7 @@ def run(ctx):
     T = ctx.thorough
     cfg = ("SPECIFICATION Spec\nINVARIANT LenExact\nINVARIANT SlotExact\nINVARIANT SamplerInverts\nINVARIANT SamplerLength\nCHECK_DEADLOCK FALSE\n"
            "CONSTANTS MaxBits = %d\n SpsVals = {2,3,4,5,6,7,8,9}\n Vouts <- VoutSet\n Biases <- BiasSet\n" % (7 if T else 6))
-    ctx.tlc("DacModel", cfg, note="every bit string, sps 2..9, NRZ/RZ, every instant", timeout=3000)
+    ctx.tlc("DacModel", cfg, note="every bit string, sps 2..9, NRZ/RZ, every instant", timeout=3000, actions=["Generate", "Sample"])
     ctx.exhaustive = True
     import_repo()
     from opticomlib.devices import DAC, SAMPLER
